@@ -192,6 +192,9 @@ void EGLPNUM_TYPENAME_init_internal_lpinfo (
 {
 	int rval = 0;
 
+	/* QSget_objval and friends look at these before any solve has run */
+	init_lp_status_info (&(lp->probstat));
+	init_lp_status_info (&(lp->basisstat));
 	lp->nrows = 0;
 	lp->nnbasic = 0;
 	lp->localrows = 0;
